@@ -221,6 +221,10 @@ func (p *Path) callBuiltin(name string, args []Value, cc *ssa.CallCommon) Value 
 			return Ptr{}
 		}
 		return Ptr{s.arr.kids[s.off]}
+	case "Sizeof":
+		return p.word(uint64(p.eng.sizeof(cc.Args[0].Type())))
+	case "Alignof":
+		return p.word(uint64(p.eng.sizes.Alignof(cc.Args[0].Type())))
 	case "panic":
 		p.faultNow("panic")
 	case "print", "println":
